@@ -27,9 +27,6 @@ structure Params (No Nk hB hO hR hK outSize kerSize bmLeafCount bmSize : Nat) : 
   bmc : bmLeafCount = Dsg.expectedChunks No
   bms : bmSize = mmr (Dsg.expectedChunks No)
 
-def St.Par (s : St) (No Nk : Nat) : Prop :=
-  Params No Nk s.hB s.hO s.hR s.hK s.outSize s.kerSize s.bmLeafCount s.bmSize
-
 theorem chunks_pos (No : Nat) (h : 1 ≤ No) : 1 ≤ Dsg.expectedChunks No := by
   unfold Dsg.expectedChunks; omega
 
@@ -38,7 +35,9 @@ theorem chunks_small (No : Nat) (h : No < 2 ^ 62) : Dsg.expectedChunks No < 2 ^ 
 
 /-- the invariant of every reachable state -/
 structure Inv (No Nk : Nat) (s : St) : Prop where
-  par : s.Par No Nk
+  /-- (spelled out field by field: the kernel compares the arguments one by one, and never has to
+  compare two states) -/
+  par : Params No Nk s.hB s.hO s.hR s.hK s.outSize s.kerSize s.bmLeafCount s.bmSize
   bm : TreeOk false s.hB (Dsg.expectedChunks No) s.bm
   /-- no cached bitmap segment carries redundant chunks (assumption on the deliveries, see
   `redundant_bitmap_chunk_stalls` for what happens otherwise) -/
@@ -255,7 +254,20 @@ theorem tX (No Nk : Nat) (s : St) (hi : Inv No Nk s) : Inv No Nk s.applyNextSegm
   cases ob with
   | some k =>
     simp only [St.applyNextWith]
-    sorry
+    cases hr : removeFirstIdx s.bm.cache k with
+    | none => sorry
+    | some pr =>
+      obtain ⟨c, rest⟩ := pr
+      obtain ⟨hc, hci, hrest⟩ := removeFirstIdx_mem _ _ _ _ hr
+      simp only
+      have hbs : s.bmSize = mmr (Dsg.expectedChunks No) := par.bms
+      have key := applyBitmapSeg_ok s.hB (Dsg.expectedChunks No) k s.bm c rest par.hB hcs bm pb
+        (bm.own c hc) hci (clean c hc) hrest
+      rw [← hbs] at key
+      obtain ⟨a, b, c'⟩ := key
+      refine ⟨par, a, ?_, out, rp, ker, noMis, ?_⟩
+      · sorry
+      · sorry
   | none => sorry
 
 end GV.Deseg
